@@ -90,7 +90,7 @@ func validateHarness(nb *nativeBuilder, ex *Exec, loaded *Loaded, u unit, n int,
 		for _, v := range viols {
 			switch v.Kind {
 			case "assert":
-				if v.Dirty {
+				if v.Dirty || v.HashDep {
 					ghost = true
 				}
 				engineFail[v.Msg] = true
